@@ -71,7 +71,10 @@ def run_case(data):
         r.labels.add('promised-stream-probed')
     win_truth = 65535             # advertised stream window per the model in force
     conn_truth = 65535
+    response_fed = False
+    conn_dead = False
     if ch.bool():
+        response_fed = client
         # the peer has already used most of the probe stream's window (never acknowledged here): an acknowledged
         # INITIAL_WINDOW_SIZE reduction then makes the advertised window negative, which is legal (RFC 7540 s6.9.2)
         blob = (wire.headers(1, s.hblock(RESP)) if client else b'') + b''.join(wire.data(1, b'u' * 16384) for _ in range(3))
@@ -181,6 +184,7 @@ def run_case(data):
                 elif o.code != wire.FRAME_SIZE_ERROR:
                     r.violate('C11:frame-beyond-acknowledged-limit-wrong-code:%s' % o.code, '')
                 r.step('ack + oversize frame', frame, o.brief())
+                conn_dead = True
                 break
             if probe_kind == 'within-new-limit':
                 r.labels.add('frame-size-probe-with-ack')
@@ -319,6 +323,31 @@ def run_case(data):
             s.feed(wire.ping(b'\0' * 8))
         if not real_violation():
             probes('after-' + op)
+    # final probe of two more things the acknowledged local settings govern: the HPACK decoder's table-size
+    # limit (a size update up to the acknowledged HEADER_TABLE_SIZE is legal, nothing above it) and, at a server,
+    # how many streams the peer may have open
+    truth = dev_cur if diverged else rfc_cur
+    if not real_violation() and not conn_dead and truth.get(6, 65536) >= 1000 and ch.bool():
+        hts = truth.get(1, 4096)
+        if client and not response_fed:
+            o = s.feed(wire.headers(1, table_size_update(hts) + raw_block(RESP)))
+            r.step('final probe: response behind a table-size update to', hts, o.brief())
+            if not o.ok or not any(e[0] == 'ResponseReceived' for e in o.events):
+                r.violate('C11:header-block-within-acknowledged-table-size-refused', '%d: %s' % (hts, o.brief()))
+            r.labels.add('final-probe')
+        elif not client:
+            count = 1 + (1 if spare_open else 0)
+            lim = truth.get(3, 100)
+            o = s.feed(wire.headers(101, table_size_update(hts) + raw_block(REQ), end_stream=True))
+            r.step('final probe: request behind a table-size update to', hts, 'open streams', count, 'limit', lim,
+                   o.brief())
+            accepted = o.ok and any(e[0] == 'RequestReceived' for e in o.events)
+            if count + 1 <= lim and not accepted:
+                r.violate('C11:stream-within-acknowledged-limits-refused', 'table %d, %d open, limit %d: %s' %
+                          (hts, count, lim, o.brief()))
+            elif count + 1 > lim and accepted:
+                r.violate('C11:stream-beyond-acknowledged-limit-accepted', '%d open, limit %d' % (count, lim))
+            r.labels.add('final-probe')
     if s.out_problems:
         r.violate('C11:malformed-output', repr(s.out_problems))
     r.nontrivial = two_outstanding or raised_then_ok
